@@ -181,3 +181,145 @@ pub fn record(kv: &Kv, out: &mut Out) {
         out.line(&json!({"op": "end", "rem": r.len()}));
     }
 }
+
+// ------------------------------------------------------------------------------------------------
+// C04: the DER reader under the byte-level fault model
+// ------------------------------------------------------------------------------------------------
+#[derive(Debug, PartialEq)]
+enum Colour {
+    Red,
+    Green,
+    Blue,
+}
+impl asn1rs::descriptor::common::Constraint for Colour {
+    const TAG: Tag = Tag::DEFAULT_ENUMERATED;
+}
+impl asn1rs::descriptor::enumerated::Constraint for Colour {
+    const NAME: &'static str = "Colour";
+    const VARIANT_COUNT: u64 = 3;
+    const STD_VARIANT_COUNT: u64 = 3;
+    fn to_choice_index(&self) -> u64 {
+        match self {
+            Colour::Red => 0,
+            Colour::Green => 1,
+            Colour::Blue => 2,
+        }
+    }
+    fn from_choice_index(index: u64) -> Option<Self> {
+        match index {
+            0 => Some(Colour::Red),
+            1 => Some(Colour::Green),
+            2 => Some(Colour::Blue),
+            _ => None,
+        }
+    }
+}
+
+const OPS: [&str; 12] = ["identifier", "length", "boolean", "i64/0", "i64/1", "i64/len", "i64/8", "i64/9", "u64/len", "u64/max", "tlv", "reader"];
+
+/// one operation on one input; Err(text) = panic text; Ok(consumed octets)
+fn der_op(op: &str, bytes: &[u8]) -> Result<usize, String> {
+    use asn1rs::descriptor::{boolean, numbers, Reader};
+    use asn1rs::protocol::basic::DER;
+    guarded(|| {
+        let mut r = bytes;
+        let n = bytes.len() as u32;
+        match op {
+            "identifier" => drop(r.read_identifier()),
+            "length" => drop(r.read_length()),
+            "boolean" => drop(r.read_boolean()),
+            "i64/0" => drop(r.read_integer_i64(0)),
+            "i64/1" => drop(r.read_integer_i64(1)),
+            "i64/len" => drop(r.read_integer_i64(n)),
+            "i64/8" => drop(r.read_integer_i64(8)),
+            "i64/9" => drop(r.read_integer_i64(9)),
+            "u64/len" => drop(r.read_integer_u64(n)),
+            "u64/max" => drop(r.read_integer_u64(u32::MAX)),
+            "tlv" => {
+                // identifier, length, then content of that length the way the typed reader does it
+                if r.read_identifier().is_ok() {
+                    if let Ok(len) = r.read_length() {
+                        let _ = r.read_integer_i64(len as u32);
+                    }
+                }
+            }
+            "reader" => {
+                let mut rd = DER::reader(bytes);
+                let _ = rd.read_number::<i64, numbers::NoConstraint>();
+                let _ = rd.read_number::<u8, numbers::NoConstraint>();
+                let _ = rd.read_boolean::<boolean::NoConstraint>();
+                let _ = rd.read_enumerated::<Colour>();
+                r = rd.into_inner();
+            }
+            _ => unreachable!(),
+        }
+        bytes.len() - r.len()
+    })
+}
+
+pub fn fault(input: &str, out: &mut Out, kv: &Kv) {
+    const SEEDCAP: usize = 100_000;
+    let start = kv_u64(kv, "start", 0) as usize;
+    let stride = kv_u64(kv, "seedstride", 1) as usize;
+    let mut progress = crate::sandbox::Progress::new(kv.get("progress").expect("progress=<file>"), std::time::Duration::from_secs(3));
+    let (tables, descs) = crate::bytefault::load(input);
+    let mut seeds: Vec<Vec<u8>> = Vec::new();
+    for (_i, c) in read_lines(kv.get("seeds").expect("seeds=<vectors>")) {
+        let b = bytes_of(&c["octets"]);
+        if !b.is_empty() && !seeds.contains(&b) {
+            seeds.push(b);
+        }
+    }
+    assert!(seeds.len() < SEEDCAP);
+    let mut stats: std::collections::BTreeMap<String, u64> = Default::default();
+    let mut shown: std::collections::BTreeMap<String, u64> = Default::default();
+    let mut n = 0u64;
+    for (di, (_line, d)) in descs.iter().enumerate() {
+        if (di + 1) * SEEDCAP <= start {
+            continue;
+        }
+        let inputs: Vec<(usize, Vec<u8>)> = match d {
+            crate::bytefault::Desc::Raw(b) => vec![(0, b.clone())],
+            crate::bytefault::Desc::Seq(fs) => seeds
+                .iter()
+                .enumerate()
+                .filter(|(si, _)| (si + di) % stride == 0)
+                .map(|(si, s)| (si, crate::bytefault::apply_all(s, fs, &tables)))
+                .filter(|(si, m)| *m != seeds[*si])
+                .collect(),
+        };
+        for (si, bytes) in inputs {
+            let idx = di * SEEDCAP + si;
+            if idx < start {
+                continue;
+            }
+            progress.begin(idx);
+            for op in OPS.iter() {
+                n += 1;
+                let base = crate::alloc::reset_peak();
+                let r = der_op(op, &bytes);
+                let peak = crate::alloc::peak_since(base);
+                let mut problems: Vec<(String, String)> = Vec::new();
+                match r {
+                    Err(p) => problems.push(("panic".into(), format!("panic: {}", p))),
+                    Ok(used) if used > bytes.len() => problems.push(("over-read".into(), format!("{} octets consumed of {}", used, bytes.len()))),
+                    Ok(_) => {}
+                }
+                if peak > (1usize << 20) + 64 * bytes.len() {
+                    problems.push(("alloc".into(), format!("peak allocation {} bytes for an input of {} bytes", peak, bytes.len())));
+                }
+                *stats.entry(if problems.is_empty() { "returned".to_string() } else { "bad".to_string() }).or_insert(0) += 1;
+                for (class, why) in problems {
+                    let key = format!("{}/{}/{}", class, op, why.chars().take(60).collect::<String>());
+                    let cnt = shown.entry(key).or_insert(0);
+                    *cnt += 1;
+                    if *cnt <= 2 {
+                        out.line(&json!({"index": idx, "class": class, "why": why, "op": op, "hex": crate::zoo::hex(&bytes), "fault": crate::bytefault::describe(d)}));
+                    }
+                }
+            }
+            progress.end();
+        }
+    }
+    out.line(&json!({"summary": true, "cases": n, "seeds": seeds.len(), "descriptors": descs.len(), "stats": stats}));
+}
